@@ -433,14 +433,20 @@ pub fn write(w: &DynW, buf: &mut [u8]) -> WOut {
     }
 }
 
-/// Build `cfg` and write it into an exact-size buffer.
+/// A buffer that looks like a reused send buffer: every byte non-zero and position dependent,
+/// so that a byte the writer forgets is visible to the parser / comparison that follows.
+pub fn dirty(n: usize) -> Vec<u8> {
+    (0..n).map(|i| (i as u8).wrapping_mul(37) | 0x81).collect()
+}
+
+/// Build `cfg` and write it into an exact-size (dirty) buffer.
 pub fn build_bytes(cfg: &Cfg, how: How) -> Result<Vec<u8>, WOut> {
     with_writer(cfg, how, |w| match calc(w) {
         WOut::Ok(n) => {
             if n > (1 << 26) {
                 return Err(WOut::Ok(n));
             }
-            let mut buf = vec![0u8; n];
+            let mut buf = dirty(n);
             match write(w, &mut buf) {
                 WOut::Ok(m) if m == n => Ok(buf),
                 WOut::Ok(m) => Err(WOut::WrongSize { announced: n, written: m }),
